@@ -470,7 +470,7 @@ def jobs_c17(tier, seed):
                 continue
             jobs.append(J(f"c17::colored_{sh}_fail{k}", features=f, timeout_s=1200, all_covers=False, min_covers=1,
                           bound=f"{what}, data <=3 bytes, inner write #{k} fails with Interrupted / WouldBlock / Other"))
-    jobs.append(J("c17::colored_vec", features=f, timeout_s=1200, bound="Vec<u8> writer: 17x17 colour pairs x 2 data bytes, byte-identical to what a dyn Write receives"))
+    jobs.append(J("c17::colored_vec", features=f, timeout_s=1200, bound="Vec<u8> writer: 17x17 colour pairs x 1 data byte: accepts everything, codes first, data unchanged, reset last", mem_gb=20, expect_gb=6))
     return jobs
 
 
